@@ -326,8 +326,7 @@ def check_effects(run, fx, cg):
     if g is None:
         run.anchor_missing(rule, "get", "FsTzdbProvider::get not found")
         return
-    if memo_fn is not None:
-        g = memo_fn              # the memo lives in the helper: its body is what the checks below read
+    g_mir = memo_fn if memo_fn is not None else g      # the body that contains borrow_mut (MIR part below)
     ev = H.Evaluator(fx)
     ev.inline = lambda p: False
     ev.call_fn(g, [H.Sym("param", (p["name"],)) for p in g.params])
@@ -347,7 +346,7 @@ def check_effects(run, fx, cg):
                   "the cached value depends on %s; a memo must be a function of the identifier (and the files) alone" %
                   sorted(deps), g.loc, detail=show(c))
     # Ref guard not live across borrow_mut
-    body = M.Body(g)
+    body = M.Body(g_mir)
     refs = [l for l in range(len(body.locals)) if body.local_ty(l).startswith("core::cell::Ref<")]
     bm = [c for c in body.calls() if c.path == "core::cell::RefCell::<T>::borrow_mut"]
     okr = True
